@@ -137,5 +137,8 @@ def run_case(spec, ctx):
             ctx.count("seeded_nodes", len(rr.seeds))
             ctx.count("seeded_with_None", sum(1 for v in rr.seeds.values() if v is None))
         ctx.count("entry_" + spec["entry"]["form"])
+        if spec.get("serialized"):
+            ctx.count("evaluations_with_a_loaded_archive_broker")
+            ctx.count("dependencies_left_out_for_preloaded_components", len(getattr(r, "pruned", ())))
     finally:
         r.built.cleanup()
